@@ -87,6 +87,46 @@ Proof.
     rewrite (seq_ev_indep _ _ _ _ _ _ _ _ _ Hs1 Ha E). eapply IH; eassumption.
 Qed.
 
+(** a store is an access to guarded state *)
+Lemma store_sens e : is_store_ev e = true -> sens e = true.
+Proof. destruct e; simpl; intro H; try discriminate; reflexivity. Qed.
+
+Lemma stores_sens es : existsb sens es = false -> existsb is_store_ev es = false.
+Proof.
+  induction es as [|e es IH]; simpl; [reflexivity|]. intro H. apply orb_false_iff in H as [H1 H2].
+  rewrite (IH H2). destruct (is_store_ev e) eqn:X; [|reflexivity]. rewrite (store_sens _ X) in H1. discriminate.
+Qed.
+
+(** without a store the published contents stay *)
+Lemma seq_evs_pub o es : forall n s l g s' l' g',
+  existsb is_store_ev es = false -> seq_evs wfun o n es s l g = Some (s', l', g') ->
+  forall p, s_pub s' p = s_pub s p.
+Proof.
+  induction es as [|e es IH]; simpl; intros n s l g s' l' g' Hs H p.
+  - inversion H; reflexivity.
+  - apply orb_false_iff in Hs as [Hs1 Hs2].
+    destruct (seq_ev wfun o n e s l g) as [[[s1 l1] g1]|] eqn:E; [|discriminate].
+    rewrite (IH _ _ _ _ _ _ _ Hs2 H p).
+    destruct e; simpl in E, Hs1; try discriminate; try (inversion E; subst; reflexivity);
+      try (destruct (l x); inversion E; subst; reflexivity).
+Qed.
+
+(** plain fields outside [wv] are never written *)
+Lemma seq_evs_ro o es : forall n s l g s' l' g',
+  (forall e v, In e es -> e = EWrite v -> mem_var v wv = true) ->
+  seq_evs wfun o n es s l g = Some (s', l', g') ->
+  forall v, mem_var v wv = false -> s_val s' v = s_val s v.
+Proof.
+  induction es as [|e es IH]; simpl; intros n s l g s' l' g' Hw H v Hv.
+  - inversion H; reflexivity.
+  - destruct (seq_ev wfun o n e s l g) as [[[s1 l1] g1]|] eqn:E; [|discriminate].
+    rewrite (IH _ _ _ _ _ _ _ (fun e0 v0 Hin => Hw e0 v0 (or_intror Hin)) H v Hv).
+    destruct e; simpl in E; try (inversion E; subst; reflexivity);
+      try (destruct (l x); inversion E; subst; reflexivity).
+    inversion E; subst. simpl. apply upd_other. intro X. subst v0.
+    rewrite (Hw _ _ (or_introl eq_refl) eq_refl) in Hv. discriminate.
+Qed.
+
 (* ---------------------------------------------------------------- static facts *)
 
 Lemma WFL : wf_locks sk = true.
@@ -223,14 +263,30 @@ Qed.
 Definition pending (r : run val arg) : bool := existsb sens (r_todo r).
 Definition inKr (r : run val arg) : bool := in_K K (r_done r).
 
+(** the linearization point of an operation is still to come: its publishing
+    store if it has one, otherwise its last access to guarded state *)
+Definition lp_pend (d t : list event) : bool :=
+  existsb is_store_ev t || (negb (existsb is_store_ev d) && existsb sens t).
+Definition lp_pending (r : run val arg) : bool := lp_pend (r_done r) (r_todo r).
+
+Lemma lp_pending_pending r : lp_pending r = true -> pending r = true.
+Proof.
+  unfold lp_pending, lp_pend, pending. intro H. apply orb_true_iff in H as [H|H].
+  - destruct (existsb sens (r_todo r)) eqn:E; [reflexivity|]. rewrite (stores_sens _ E) in H. discriminate.
+  - apply andb_true_iff in H. tauto.
+Qed.
+
 (** what relates one running thread to the abstract (sequential) state [σ]:
     - before its linearization point, outside the writer lock: it has not touched guarded state;
     - before its linearization point, inside the writer lock: what it did so far is a prefix of its
       sequential run from [σ] (nobody else can change [σ] or the plain fields meanwhile);
-    - after its linearization point: the rest of its run, in value semantics, yields the log [pred]
+    - after its linearization point (the publishing store) but with accesses to plain fields still to
+      come, inside the writer lock: [σ] is already the final state of its sequential run, the concrete
+      plain fields lag behind, and the rest of the sequential run from the concrete state ends in [σ];
+    - after its last access: the rest of its run, in value semantics, yields the log [pred]
       that the sequential run predicted for it. *)
 Definition thread_inv (c : cfg val arg) (σ : sstate val) (pred : option (list val)) (r : run val arg) : Prop :=
-  if pending r then
+  if lp_pending r then
     pred = None /\
     (if inKr r then
        exists σ1 lvA, seq_evs wfun (r_op r) 0 (r_done r) σ empty_env [] = Some (σ1, lvA, r_log r) /\
@@ -238,6 +294,10 @@ Definition thread_inv (c : cfg val arg) (σ : sstate val) (pred : option (list v
      else
        exists lvA, seq_evs wfun (r_op r) 0 (r_done r) σ empty_env [] = Some (σ, lvA, r_log r) /\
          env_eq lvA (lv c r) /\ existsb sens (r_done r) = false)
+  else if pending r then
+    exists plog σc lvA lv', pred = Some plog /\ inKr r = true /\ env_eq lvA (lv c r) /\
+      (forall v, s_val σc v = c_val c v) /\ (forall p, s_pub σc p = s_pub σ p) /\
+      seq_evs wfun (r_op r) (length (r_done r)) (r_todo r) σc lvA (r_log r) = Some (σ, lv', plog)
   else
     exists plog lvA lv', pred = Some plog /\ env_eq lvA (lv c r) /\
       seq_evs wfun (r_op r) (length (r_done r)) (r_todo r) σ lvA (r_log r) = Some (σ, lv', plog).
@@ -262,23 +322,28 @@ Proof.
   assert (Hlv : forall lvA, env_eq lvA (lv c r) -> env_eq lvA (lv c' r)).
   { intros lvA E x. rewrite (E x). unfold lv. destruct (r_loc r x) as [o|] eqn:El; [|reflexivity].
     simpl. rewrite (Hh _ _ El). reflexivity. }
-  unfold thread_inv in *. destruct (pending r) eqn:Ep.
+  unfold thread_inv in *. destruct (lp_pending r) eqn:Elp.
   - destruct H as [Hp H]. split; [assumption|]. destruct (inKr r) eqn:Ek.
     + destruct H as (σ1 & lvA & E & He & Hval & Hpub). exists σ1, lvA. repeat split; auto.
-      intro v. rewrite (Hv eq_refl eq_refl v). apply Hval.
+      intro v. rewrite (Hv eq_refl (lp_pending_pending _ Elp) v). apply Hval.
     + destruct H as (lvA & E & He & Hs). exists lvA. auto.
-  - destruct H as (plog & lvA & lv' & Hp & He & E). exists plog, lvA, lv'. auto.
+  - destruct (pending r) eqn:Ep.
+    + destruct H as (plog & σc & lvA & lv' & Hp & Hk & He & Hval & Hpub & E).
+      exists plog, σc, lvA, lv'. repeat split; auto. intro v. rewrite (Hv Hk eq_refl v). apply Hval.
+    + destruct H as (plog & lvA & lv' & Hp & He & E). exists plog, lvA, lv'. auto.
 Qed.
 
 Lemma thread_inv_sigma c σ σ' pred r :
   thread_inv c σ pred r -> inKr r && pending r = false -> ro_agree σ σ' -> thread_inv c σ' pred r.
 Proof.
-  intros H Hn Ha. unfold thread_inv in *. destruct (pending r) eqn:Ep.
-  - destruct H as [Hp H]. split; [assumption|]. destruct (inKr r) eqn:Ek; [discriminate|].
+  intros H Hn Ha. unfold thread_inv in *. destruct (lp_pending r) eqn:Elp.
+  - destruct H as [Hp H]. split; [assumption|]. rewrite (lp_pending_pending _ Elp), andb_true_r in Hn. rewrite Hn in *.
     destruct H as (lvA & E & He & Hs). exists lvA. repeat split; auto.
     eapply seq_evs_indep; eassumption.
-  - destruct H as (plog & lvA & lv' & Hp & He & E). exists plog, lvA, lv'. repeat split; auto.
-    eapply seq_evs_indep; eassumption.
+  - destruct (pending r) eqn:Ep.
+    + destruct H as (plog & σc & lvA & lv' & Hp & Hk & _). rewrite Hk in Hn. discriminate.
+    + destruct H as (plog & lvA & lv' & Hp & He & E). exists plog, lvA, lv'. repeat split; auto.
+      eapply seq_evs_indep; eassumption.
 Qed.
 
 (** *** the writer lock along a path *)
@@ -339,7 +404,8 @@ Record cow_facts (r : run val arg) (e : event) (rest : list event) : Prop := {
   cf_out : sens e = true -> inKr r = false ->
            existsb sens (r_done r) = false /\ existsb sens rest = false;
   cf_write : is_write_ev e = true -> inKr r = true;
-  cf_store : is_store_ev e = true -> existsb sens rest = false;
+  cf_store : is_store_ev e = true -> existsb is_store_ev rest = false;
+  cf_after : existsb is_store_ev (r_done r) = true -> sens e = true -> inKr r = true /\ is_plain_access e = true;
   cf_read : is_shared_read wv e = true -> inKr r = true
 }.
 
@@ -348,7 +414,7 @@ Proof.
   intros (path & Hp & Hs) Htd. rewrite Htd in Hs. pose proof (cow_point _ _ _ Hp Hs) as H.
   pose proof (splits_app _ _ _ Hs) as Epath.
   unfold cow_point_ok in H. simpl in H.
-  apply andb_true_iff in H as [H H6]. apply andb_true_iff in H as [H H5].
+  apply andb_true_iff in H as [H H7]. apply andb_true_iff in H as [H H6]. apply andb_true_iff in H as [H H5].
   apply andb_true_iff in H as [H H4]. apply andb_true_iff in H as [H2 H3].
   fold (inKr r) in *. split.
   - intro E. subst e. simpl in H2. rewrite Nat.eqb_refl in H2. simpl in H2. apply negb_true_iff in H2. exact H2.
@@ -356,7 +422,8 @@ Proof.
     rewrite <- Epath in H3. apply (count_one _ e _ H3 He).
   - intro Hw. rewrite Hw in H4. simpl in H4. exact H4.
   - intro Hst. rewrite Hst in H5. simpl in H5. apply negb_true_iff in H5. exact H5.
-  - intro Hr. rewrite Hr in H6. simpl in H6. exact H6.
+  - intros Hd He. fold (sens e) in H6. rewrite Hd, He in H6. simpl in H6. apply andb_true_iff in H6. exact H6.
+  - intro Hr. rewrite Hr in H7. simpl in H7. exact H7.
 Qed.
 
 (** what one step of thread [t] does to the heap cells other threads can see *)
@@ -459,7 +526,8 @@ Qed.
 
 (* ---------------------------------------------------------------- one event of one thread *)
 
-Definition is_lp_ev (r : run val arg) (rest : list event) : bool := pending r && negb (existsb sens rest).
+Definition is_lp_ev (r : run val arg) (e : event) (rest : list event) : bool :=
+  lp_pend (r_done r) (e :: rest) && negb (lp_pend (r_done r ++ [e]) rest).
 
 Lemma def_agree_of c' r' lvA' :
   own_inv c' -> (exists t, c_thr c' t = Some r') -> env_eq lvA' (lv c' r') -> def_agree (r_done r') lvA'.
@@ -468,10 +536,15 @@ Proof.
   unfold stat_of in D. rewrite D. destruct (r_loc r' x); simpl; split; congruence.
 Qed.
 
+Lemma lp_pend_snoc d e rest :
+  lp_pend (d ++ [e]) rest =
+  existsb is_store_ev rest || (negb (existsb is_store_ev d || is_store_ev e) && existsb sens rest).
+Proof. unfold lp_pend. rewrite existsb_app. simpl. rewrite orb_false_r. reflexivity. Qed.
+
 Lemma sim_ev c σ pl t r e rest c' :
   lock_inv sk c -> own_inv c -> own_inv c' -> sim c σ pl ->
   c_thr c t = Some r -> r_todo r = e :: rest -> ev_step wfun wp c t r rest e c' ->
-  if is_lp_ev r rest
+  if is_lp_ev r e rest
   then exists σ' plog, seq_run wfun sk (r_op r) σ = Some (σ', plog) /\ sim c' σ' (upd pl t (Some plog))
   else sim c' σ pl.
 Proof.
@@ -484,10 +557,15 @@ Proof.
   pose proof (sm_thr _ _ _ S t r Ht) as TI.
   pose proof (sm_path _ _ _ S t r Ht) as Hpath. rewrite Htd in Hpath.
   assert (Hpend : pending r = sens e || existsb sens rest) by (unfold pending; rewrite Htd; reflexivity).
+  assert (Hlpn : lp_pending r = lp_pend (r_done r) (e :: rest)) by (unfold lp_pending; rewrite Htd; reflexivity).
   assert (Hin_path : In (r_done r ++ e :: rest) (all_paths sk)) by (eapply path_of_in; eassumption).
   assert (Hsplit : In (r_done r ++ [e], rest) (splits (r_done r ++ e :: rest))).
   { apply splits_next. destruct Hon as (path & Hp & Hs). rewrite Htd in Hs.
     pose proof (splits_app _ _ _ Hs) as Ep. rewrite Ep. assumption. }
+  assert (Hrest_wv : forall e0 v, In e0 rest -> e0 = EWrite v -> mem_var v wv = true).
+  { intros e0 v Hin ->. apply mem_var_In. unfold wv, wvars. apply in_flat_map. exists (EWrite v).
+    split; [|left; reflexivity]. apply in_concat. exists (r_done r ++ e :: rest). split; [assumption|].
+    apply in_or_app. right. right. assumption. }
   (* other threads are not disturbed *)
   assert (Hothers : forall u ru, u <> t -> c_thr c u = Some ru -> thread_inv c' σ (pl u) ru).
   { intros u ru Hne Hu. eapply thread_inv_frame; [apply (sm_thr _ _ _ S u ru Hu) | intros x o; apply (HF1 u ru x o Hne Hu) | ].
@@ -495,38 +573,97 @@ Proof.
     apply Hne. eapply (inK_unique c u t ru r LI Hu Ht Ku). apply (cf_write _ _ _ CF). reflexivity. }
   assert (Hnotstore_ptr : is_store_ev e = false -> c_ptr c' = c_ptr c).
   { intro Hn. apply SP. intros p x E. subst e. discriminate. }
-  unfold thread_inv in TI. unfold is_lp_ev.
-  destruct (pending r) eqn:Ep.
-  2:{ (* ---- A: after the linearization point *)
-    simpl. symmetry in Hpend. apply orb_false_iff in Hpend as [Hse Hsr].
-    destruct TI as (plog & lvA & lv' & Hpl & Henv & E). rewrite Htd in E. simpl in E.
-    destruct (sync_ev c t r rest e c' σ lvA LI OI Ht Htd Hev Henv) as (r' & s' & lvA' & Ethr & Hd' & Htd' & Hop' & Eseq & Henv' & Heff).
-    { intros v ->. simpl in Hse. symmetry. apply (sm_ro _ _ _ S). assumption. }
-    { intros x p ->. symmetry. apply (sm_pub _ _ _ S). }
-    rewrite Eseq in E. pose proof (seq_ev_nonsens _ _ _ _ _ _ _ _ _ Hse Eseq) as ->.
-    assert (Hnw : is_write_ev e = false) by (destruct e; simpl in *; try reflexivity; discriminate).
-    assert (Hns : is_store_ev e = false) by (destruct e; simpl in *; try reflexivity; discriminate).
-    assert (Hval' : forall v, c_val c' v = c_val c v).
-    { intro v. apply SV. intros v0 ->. discriminate. }
-    eapply (sim_rebuild c c' σ σ pl pl t r' S Ethr).
-    - intro p. rewrite (Hnotstore_ptr Hns), HF2. apply (sm_pub _ _ _ S).
-    - intros v Hv. rewrite Hval'. apply (sm_ro _ _ _ S). assumption.
-    - destruct (sm_val _ _ _ S) as [L|(u & ru & Hu & Ku & Pu)].
-      + left. intro v. rewrite Hval'. apply L.
-      + right. exists u, ru. repeat split; auto. rewrite Ethr. rewrite upd_other; [assumption|].
-        intro X. subst u. rewrite Ht in Hu. inversion Hu; subst. congruence.
-    - unfold thread_inv. unfold pending. rewrite Htd', Hsr. exists plog, lvA', lv'. repeat split; auto.
-      rewrite Hd', app_length, Hop'. simpl. rewrite Nat.add_1_r. exact E.
-    - exact Hothers.
-    - rewrite Hop', Hd', Htd', <- app_assoc. exact Hpath.
-    - reflexivity. }
-  destruct TI as [Hpl TI].
+  unfold thread_inv in TI. unfold is_lp_ev. rewrite <- Hlpn.
+  destruct (lp_pending r) eqn:Elp.
+  2:{ (* ---- the linearization point is behind *)
+    simpl.
+    assert (Hnst : is_store_ev e = false /\ existsb is_store_ev rest = false).
+    { unfold lp_pend in Hlpn. symmetry in Hlpn. apply orb_false_iff in Hlpn as [X _]. simpl in X.
+      apply orb_false_iff in X. exact X. }
+    destruct Hnst as [Hns Hnsr].
+    destruct (pending r) eqn:Ep.
+    - (* ---- D: published, accesses to plain fields still to come (inside the writer lock) *)
+      destruct TI as (plog & σc & lvA & lv' & Hpl & Ek & Henv & Hvalc & Hpubc & E).
+      rewrite Htd in E. simpl in E.
+      destruct (sync_ev c t r rest e c' σc lvA LI OI Ht Htd Hev Henv) as (r' & s' & lvA' & Ethr & Hd' & Htd' & Hop' & Eseq & Henv' & Heff).
+      { intros v _. apply Hvalc. }
+      { intros x p _. rewrite Hpubc. symmetry. apply (sm_pub _ _ _ S). }
+      rewrite Eseq in E.
+      assert (Hval' : forall v, s_val s' v = c_val c' v).
+      { intro v. destruct e; simpl in Heff, Hns; try discriminate;
+          try (destruct Heff as (-> & Ev & _); rewrite Ev; apply Hvalc).
+        destruct Heff as (-> & Ev & _). rewrite Ev. simpl. unfold upd. destruct (v =? v0); [reflexivity|apply Hvalc]. }
+      assert (Hpubs' : forall p, s_pub s' p = s_pub σ p).
+      { intro p. destruct e; simpl in Heff, Hns; try discriminate;
+          try (destruct Heff as (-> & _); apply Hpubc). }
+      assert (Hro' : forall v, mem_var v wv = false -> c_val c' v = c_val c v).
+      { intros v Hv. apply SV. intros v0 -> ->. rewrite (WW v0 eq_refl) in Hv. discriminate. }
+      assert (Hlp' : lp_pending r' = false).
+      { unfold lp_pending. rewrite Hd', Htd', lp_pend_snoc, Hnsr. simpl.
+        unfold lp_pend in Hlpn. symmetry in Hlpn. apply orb_false_iff in Hlpn as [_ X].
+        simpl in X. rewrite <- Hpend, andb_true_r in X. apply negb_false_iff in X. rewrite X. reflexivity. }
+      destruct (existsb sens rest) eqn:Hsr.
+      + (* more to come *)
+        assert (Hne : e <> EUnlock K).
+        { intro X. rewrite (cf_unlock _ _ _ CF X) in Hsr. discriminate. }
+        assert (Hk' : inKr r' = true) by (unfold inKr; rewrite Hd'; apply inK_keep; assumption).
+        assert (Hpend' : pending r' = true) by (unfold pending; rewrite Htd'; exact Hsr).
+        eapply (sim_rebuild c c' σ σ pl pl t r' S Ethr).
+        * intro p. rewrite (Hnotstore_ptr Hns), HF2. apply (sm_pub _ _ _ S).
+        * intros v Hv. rewrite (Hro' v Hv). apply (sm_ro _ _ _ S). assumption.
+        * right. exists t, r'. repeat split; auto. rewrite Ethr. apply upd_same.
+        * unfold thread_inv. rewrite Hlp', Hpend'. exists plog, s', lvA', lv'. repeat split; auto.
+          rewrite Hd', Htd', app_length, Hop'. simpl. rewrite Nat.add_1_r. exact E.
+        * exact Hothers.
+        * rewrite Hop', Hd', Htd', <- app_assoc. exact Hpath.
+        * reflexivity.
+      + (* that was the last one: the concrete state has caught up with [σ] *)
+        pose proof (seq_evs_nonsens _ _ _ _ _ _ _ _ _ Hsr E) as Es. subst s'.
+        assert (Hpend' : pending r' = false) by (unfold pending; rewrite Htd'; exact Hsr).
+        eapply (sim_rebuild c c' σ σ pl pl t r' S Ethr).
+        * intro p. rewrite (Hnotstore_ptr Hns), HF2. apply (sm_pub _ _ _ S).
+        * intros v Hv. rewrite (Hro' v Hv). apply (sm_ro _ _ _ S). assumption.
+        * left. intro v. symmetry. apply Hval'.
+        * unfold thread_inv. rewrite Hlp', Hpend'. exists plog, lvA', lv'. repeat split; auto.
+          rewrite Hd', Htd', app_length, Hop'. simpl. rewrite Nat.add_1_r. exact E.
+        * exact Hothers.
+        * rewrite Hop', Hd', Htd', <- app_assoc. exact Hpath.
+        * reflexivity.
+    - (* ---- A: after the last access *)
+      symmetry in Hpend. apply orb_false_iff in Hpend as [Hse Hsr].
+      destruct TI as (plog & lvA & lv' & Hpl & Henv & E). rewrite Htd in E. simpl in E.
+      destruct (sync_ev c t r rest e c' σ lvA LI OI Ht Htd Hev Henv) as (r' & s' & lvA' & Ethr & Hd' & Htd' & Hop' & Eseq & Henv' & Heff).
+      { intros v ->. simpl in Hse. symmetry. apply (sm_ro _ _ _ S). assumption. }
+      { intros x p ->. symmetry. apply (sm_pub _ _ _ S). }
+      rewrite Eseq in E. pose proof (seq_ev_nonsens _ _ _ _ _ _ _ _ _ Hse Eseq) as ->.
+      assert (Hval' : forall v, c_val c' v = c_val c v).
+      { intro v. apply SV. intros v0 ->. discriminate. }
+      assert (Hlp' : lp_pending r' = false).
+      { unfold lp_pending. rewrite Hd', Htd', lp_pend_snoc, Hnsr, Hsr, andb_false_r. reflexivity. }
+      eapply (sim_rebuild c c' σ σ pl pl t r' S Ethr).
+      + intro p. rewrite (Hnotstore_ptr Hns), HF2. apply (sm_pub _ _ _ S).
+      + intros v Hv. rewrite Hval'. apply (sm_ro _ _ _ S). assumption.
+      + destruct (sm_val _ _ _ S) as [L|(u & ru & Hu & Ku & Pu)].
+        * left. intro v. rewrite Hval'. apply L.
+        * right. exists u, ru. repeat split; auto. rewrite Ethr. rewrite upd_other; [assumption|].
+          intro X. subst u. rewrite Ht in Hu. inversion Hu; subst. congruence.
+      + unfold thread_inv. rewrite Hlp'. unfold pending. rewrite Htd', Hsr. exists plog, lvA', lv'. repeat split; auto.
+        rewrite Hd', app_length, Hop'. simpl. rewrite Nat.add_1_r. exact E.
+      + exact Hothers.
+      + rewrite Hop', Hd', Htd', <- app_assoc. exact Hpath.
+      + reflexivity. }
+  pose proof (lp_pending_pending _ Elp) as Ep.
+  destruct TI as [Hpl TI]. simpl.
   destruct (inKr r) eqn:Ek.
   2:{ (* ---- B: before the linearization point, outside the writer lock *)
     destruct TI as (lvA & E0 & Henv & Hsd).
+    assert (Hnsd : existsb is_store_ev (r_done r) = false) by (apply stores_sens; assumption).
     destruct (sens e) eqn:Hse.
     - (* B2: the single access to guarded state: a load of the published pointer; linearization point *)
-      destruct (cf_out _ _ _ CF Hse Ek) as [_ Hsr]. rewrite Hsr. simpl.
+      destruct (cf_out _ _ _ CF Hse Ek) as [_ Hsr].
+      assert (Hlpa : lp_pend (r_done r ++ [e]) rest = false).
+      { rewrite lp_pend_snoc, (stores_sens _ Hsr), Hsr, andb_false_r. reflexivity. }
+      rewrite Hlpa. simpl.
       assert (Hnw : is_write_ev e = false).
       { destruct (is_write_ev e) eqn:X; [|reflexivity]. rewrite (cf_write _ _ _ CF X) in Ek. discriminate. }
       assert (Hnr : is_shared_read wv e = false).
@@ -554,24 +691,28 @@ Proof.
           -- left. intro v. rewrite Hval'. apply L.
           -- right. exists u, ru. repeat split; auto. rewrite Ethr. rewrite upd_other; [assumption|].
              intro X. subst u. rewrite Ht in Hu. inversion Hu; subst. congruence.
-        * unfold thread_inv. unfold pending. rewrite Htd', Hsr. rewrite upd_same.
-          exists g3, lvA', l3. repeat split; auto. rewrite Hd', Hop'. exact E3.
+        * unfold thread_inv. unfold lp_pending, pending. rewrite Hd', Htd', Hlpa, Hsr. rewrite upd_same.
+          exists g3, lvA', l3. repeat split; auto. rewrite Hop'. exact E3.
         * intros u ru Hne Hu. rewrite upd_other by assumption. apply Hothers; assumption.
         * rewrite Hop', Hd', Htd', <- app_assoc. exact Hpath.
         * intros u Hne. apply upd_other. assumption.
     - (* B1: an event that does not touch guarded state *)
-      simpl in Hpend. rewrite <- Hpend. simpl.
+      assert (Hns : is_store_ev e = false).
+      { destruct (is_store_ev e) eqn:X; [|reflexivity]. rewrite (store_sens _ X) in Hse. discriminate. }
+      assert (Hlpa : lp_pend (r_done r ++ [e]) rest = true).
+      { rewrite lp_pend_snoc, Hnsd, Hns. simpl. pose proof Hlpn as X. unfold lp_pend in X. simpl in X.
+        rewrite Hns, Hnsd, Hse in X. simpl in X. symmetry. exact X. }
+      rewrite Hlpa. simpl.
       destruct (sync_ev c t r rest e c' σ lvA LI OI Ht Htd Hev Henv) as (r' & s' & lvA' & Ethr & Hd' & Htd' & Hop' & Eseq & Henv' & Heff).
       { intros v ->. unfold sens in Hse. simpl in Hse. symmetry. apply (sm_ro _ _ _ S). assumption. }
       { intros x p ->. symmetry. apply (sm_pub _ _ _ S). }
       pose proof (seq_ev_nonsens _ _ _ _ _ _ _ _ _ Hse Eseq) as ->.
-      assert (Hnw : is_write_ev e = false) by (destruct e; simpl in *; try reflexivity; discriminate).
-      assert (Hns : is_store_ev e = false) by (destruct e; simpl in *; try reflexivity; discriminate).
       assert (Hval' : forall v, c_val c' v = c_val c v).
       { intro v. apply SV. intros v0 ->. discriminate. }
       assert (E0' : seq_evs wfun (r_op r') 0 (r_done r') σ empty_env [] = Some (σ, lvA', r_log r')).
       { rewrite Hop', Hd', seq_evs_app, E0. simpl. rewrite Eseq. reflexivity. }
-      assert (Hpend' : pending r' = true) by (unfold pending; rewrite Htd'; symmetry; exact Hpend).
+      assert (Hlp' : lp_pending r' = true) by (unfold lp_pending; rewrite Hd', Htd'; exact Hlpa).
+      pose proof (lp_pending_pending _ Hlp') as Hpend'.
       destruct (event_eq_dec e (ELock K)) as [->|Hnl].
       + (* enters the writer lock: nobody else is inside *)
         assert (HvalS : forall v, c_val c v = s_val σ v).
@@ -584,7 +725,7 @@ Proof.
         * intro p. rewrite (Hnotstore_ptr Hns), HF2. apply (sm_pub _ _ _ S).
         * intros v Hv. rewrite Hval'. apply (sm_ro _ _ _ S). assumption.
         * right. exists t, r'. repeat split; auto. rewrite Ethr. apply upd_same.
-        * unfold thread_inv. rewrite Hpend', Hk'. split; [assumption|].
+        * unfold thread_inv. rewrite Hlp', Hk'. split; [assumption|].
           exists σ, lvA'. repeat split; auto. intro v. rewrite Hval'. symmetry. apply HvalS.
         * exact Hothers.
         * rewrite Hop', Hd', Htd', <- app_assoc. exact Hpath.
@@ -597,7 +738,7 @@ Proof.
           -- left. intro v. rewrite Hval'. apply L.
           -- right. exists u, ru. repeat split; auto. rewrite Ethr. rewrite upd_other; [assumption|].
              intro X. subst u. rewrite Ht in Hu. inversion Hu; subst. congruence.
-        * unfold thread_inv. rewrite Hpend', Hk'. split; [assumption|].
+        * unfold thread_inv. rewrite Hlp', Hk'. split; [assumption|].
           exists lvA'. repeat split; auto. rewrite Hd', existsb_app, Hsd. simpl. rewrite Hse. reflexivity.
         * exact Hothers.
         * rewrite Hop', Hd', Htd', <- app_assoc. exact Hpath.
@@ -618,15 +759,18 @@ Proof.
     - destruct Heff as (o & _ & -> & _ & Ev). rewrite Ev. simpl. apply Hval1. }
   assert (Hro' : forall v, mem_var v wv = false -> c_val c' v = c_val c v).
   { intros v Hv. apply SV. intros v0 -> ->. rewrite (WW v0 eq_refl) in Hv. discriminate. }
-  destruct (existsb sens rest) eqn:Hsr.
-  - (* C1: more accesses to guarded state follow; not a linearization point *)
-    rewrite andb_false_r.
+  destruct (lp_pend (r_done r ++ [e]) rest) eqn:Hlpa.
+  - (* C1: the linearization point is still to come *)
+    simpl.
+    assert (Hns : is_store_ev e = false).
+    { destruct (is_store_ev e) eqn:X; [|reflexivity]. rewrite lp_pend_snoc, (cf_store _ _ _ CF X), X, orb_true_r in Hlpa.
+      discriminate. }
+    assert (Hlp' : lp_pending r' = true) by (unfold lp_pending; rewrite Hd', Htd'; exact Hlpa).
+    pose proof (lp_pending_pending _ Hlp') as Hpend'.
+    assert (Hsr : existsb sens rest = true) by (unfold pending in Hpend'; rewrite Htd' in Hpend'; exact Hpend').
     assert (Hne : e <> EUnlock K).
     { intro X. rewrite (cf_unlock _ _ _ CF X) in Hsr. discriminate. }
-    assert (Hns : is_store_ev e = false).
-    { destruct (is_store_ev e) eqn:X; [|reflexivity]. rewrite (cf_store _ _ _ CF X) in Hsr. discriminate. }
     assert (Hk' : inKr r' = true) by (unfold inKr; rewrite Hd'; apply inK_keep; assumption).
-    assert (Hpend' : pending r' = true) by (unfold pending; rewrite Htd'; exact Hsr).
     assert (Hpub' : forall p, s_pub s' p = s_pub σ p).
     { intro p. destruct e; simpl in Heff, Hns; try discriminate;
         try (destruct Heff as (-> & _); apply Hpub1). }
@@ -634,16 +778,19 @@ Proof.
     + intro p. rewrite (Hnotstore_ptr Hns), HF2. apply (sm_pub _ _ _ S).
     + intros v Hv. rewrite (Hro' v Hv). apply (sm_ro _ _ _ S). assumption.
     + right. exists t, r'. auto.
-    + unfold thread_inv. rewrite Hpend', Hk'. split; [assumption|]. exists s', lvA'. auto.
+    + unfold thread_inv. rewrite Hlp', Hk'. split; [assumption|]. exists s', lvA'. auto.
     + exact Hothers.
     + rewrite Hop', Hd', Htd', <- app_assoc. exact Hpath.
     + reflexivity.
-  - (* C2: the last access to guarded state: linearization point *)
+  - (* C2: linearization point: the publishing store, or the last access of an operation that does not publish *)
     simpl.
+    assert (Hnsr : existsb is_store_ev rest = false).
+    { rewrite lp_pend_snoc in Hlpa. apply orb_false_iff in Hlpa. tauto. }
     pose proof (def_agree_of c' r' lvA' OI' (ex_intro _ t Hthr') Henv') as Hdef. rewrite Hd' in Hdef.
     destruct (seq_total (r_op r) _ Hin_path rest (r_done r ++ [e]) s' lvA' (r_log r') Hsplit Hdef) as (s3 & l3 & g3 & E3).
-    pose proof (seq_evs_nonsens _ _ _ _ _ _ _ _ _ Hsr E3) as ->.
-    exists s', g3. split.
+    pose proof (seq_evs_pub _ _ _ _ _ _ _ _ _ Hnsr E3) as Hpub3.
+    pose proof (seq_evs_ro _ _ _ _ _ _ _ _ _ Hrest_wv E3) as Hro3.
+    exists s3, g3. split.
     + unfold seq_run. rewrite Hpath. unfold empty_env in E0. rewrite seq_evs_app, E0. simpl. rewrite Eseq.
       rewrite app_length in E3. simpl in E3. rewrite Nat.add_1_r in E3. rewrite E3. reflexivity.
     + assert (Hpub' : forall p, c_heap c' (c_ptr c' p) = s_pub s' p).
@@ -655,30 +802,62 @@ Proof.
         - rewrite (Hnotstore_ptr eq_refl), HF2, (sm_pub _ _ _ S), <- Hpub1.
           destruct e; simpl in Heff, Hns; try discriminate;
             try (destruct Heff as (-> & _); reflexivity). }
-      assert (Hagree : ro_agree σ s').
+      assert (Hagree : ro_agree σ s3).
       { split.
-        - intros v Hv. rewrite Hval', (Hro' v Hv). apply (sm_ro _ _ _ S). assumption.
-        - intros p Hp. rewrite <- Hpub'.
+        - intros v Hv. rewrite (Hro3 v Hv), Hval', (Hro' v Hv). apply (sm_ro _ _ _ S). assumption.
+        - intros p Hp. rewrite Hpub3, <- Hpub'.
           assert (Eptr : c_ptr c' p = c_ptr c p).
           { destruct (is_store_ev e) eqn:Hns; [|rewrite (Hnotstore_ptr eq_refl); reflexivity].
             destruct e; simpl in Hns; try discriminate. simpl in Heff. destruct Heff as (o & _ & _ & Eptr & _).
             rewrite Eptr. apply upd_other. intro X. subst p0. rewrite (WS p x eq_refl) in Hp. discriminate. }
           rewrite Eptr, HF2. apply (sm_pub _ _ _ S). }
-      eapply (sim_rebuild c c' σ s' pl _ t r' S Ethr).
-      * exact Hpub'.
-      * intros v _. symmetry. apply Hval'.
-      * left. intro v. symmetry. apply Hval'.
-      * unfold thread_inv. unfold pending. rewrite Htd', Hsr. rewrite upd_same.
-        exists g3, lvA', l3. repeat split; auto. rewrite Hd', Hop'. exact E3.
-      * intros u ru Hne Hu. rewrite upd_other by assumption.
+      assert (Hlp' : lp_pending r' = false) by (unfold lp_pending; rewrite Hd', Htd'; exact Hlpa).
+      assert (Hoth3 : forall u ru, u <> t -> c_thr c u = Some ru ->
+                 thread_inv c' s3 (upd pl t (Some g3) u) ru).
+      { intros u ru Hne Hu. rewrite upd_other by assumption.
         eapply thread_inv_sigma; [apply Hothers; assumption| |exact Hagree].
         destruct (inKr ru) eqn:Ku; [|reflexivity]. exfalso. apply Hne.
-        eapply (inK_unique c u t ru r LI Hu Ht Ku Ek).
-      * rewrite Hop', Hd', Htd', <- app_assoc. exact Hpath.
-      * intros u Hne. apply upd_other. assumption.
+        eapply (inK_unique c u t ru r LI Hu Ht Ku Ek). }
+      destruct (existsb sens rest) eqn:Hsr.
+      * (* published; plain fields are still to be updated under the writer lock *)
+        assert (Hst : is_store_ev e = true).
+        { destruct (is_store_ev e) eqn:X; [reflexivity|]. exfalso.
+          rewrite lp_pend_snoc, Hnsr, X, Hsr, orb_false_r, andb_true_r in Hlpa. simpl in Hlpa.
+          apply negb_false_iff in Hlpa.
+          pose proof Hlpn as Y. unfold lp_pend in Y. simpl in Y. rewrite X, Hnsr, Hlpa in Y. discriminate. }
+        assert (Hne : e <> EUnlock K) by (intro X; subst e; discriminate).
+        assert (Hk' : inKr r' = true) by (unfold inKr; rewrite Hd'; apply inK_keep; assumption).
+        assert (Hpend' : pending r' = true) by (unfold pending; rewrite Htd'; exact Hsr).
+        eapply (sim_rebuild c c' σ s3 pl _ t r' S Ethr).
+        -- intro p. rewrite Hpub3. apply Hpub'.
+        -- intros v Hv. rewrite (Hro3 v Hv). symmetry. apply Hval'.
+        -- right. exists t, r'. auto.
+        -- unfold thread_inv. rewrite Hlp', Hpend', upd_same. exists g3, s', lvA', l3.
+           split; [reflexivity|]. split; [exact Hk'|]. split; [exact Henv'|]. split; [exact Hval'|].
+           split; [intro p; symmetry; apply Hpub3|]. rewrite Hd', Htd', Hop'. exact E3.
+        -- exact Hoth3.
+        -- rewrite Hop', Hd', Htd', <- app_assoc. exact Hpath.
+        -- intros u Hne'. apply upd_other. assumption.
+      * pose proof (seq_evs_nonsens _ _ _ _ _ _ _ _ _ Hsr E3) as Es3. subst s3.
+        assert (Hpend' : pending r' = false) by (unfold pending; rewrite Htd'; exact Hsr).
+        eapply (sim_rebuild c c' σ s' pl _ t r' S Ethr).
+        -- exact Hpub'.
+        -- intros v _. symmetry. apply Hval'.
+        -- left. intro v. symmetry. apply Hval'.
+        -- unfold thread_inv. rewrite Hlp', Hpend', upd_same.
+           exists g3, lvA', l3. repeat split; auto. rewrite Hd', Htd', Hop'. exact E3.
+        -- exact Hoth3.
+        -- rewrite Hop', Hd', Htd', <- app_assoc. exact Hpath.
+        -- intros u Hne. apply upd_other. assumption.
 Qed.
 
 (* ---------------------------------------------------------------- start and end of an operation *)
+
+Lemma lp_pend_nil p : lp_pend [] p = existsb sens p.
+Proof.
+  unfold lp_pend. simpl. destruct (existsb sens p) eqn:E; [apply orb_true_r|].
+  rewrite (stores_sens _ E). reflexivity.
+Qed.
 
 Lemma sim_begin c σ pl t o path :
   sim c σ pl -> c_thr c t = None -> path_of sk o = Some path ->
@@ -701,7 +880,7 @@ Proof.
   - eapply (sim_rebuild c (set_thr c t (Some r0)) σ σ pl pl t r0 S eq_refl); simpl; auto.
     + apply (sm_pub _ _ _ S).
     + apply (sm_ro _ _ _ S).
-    + unfold thread_inv. unfold pending. simpl. rewrite Hs. split; [apply (sm_idle _ _ _ S t Hnone)|].
+    + unfold thread_inv. unfold lp_pending. simpl. rewrite lp_pend_nil, Hs. split; [apply (sm_idle _ _ _ S t Hnone)|].
       unfold inKr, in_K. simpl. exists empty_env. repeat split.
   - assert (Hin : In path (all_paths sk)) by (eapply path_of_in; eassumption).
     assert (Hd0 : def_agree [] empty_env) by (intro x; split; reflexivity).
@@ -712,7 +891,7 @@ Proof.
     + eapply (sim_rebuild c (set_thr c t (Some r0)) σ σ pl _ t r0 S eq_refl); simpl; auto.
       * apply (sm_pub _ _ _ S).
       * apply (sm_ro _ _ _ S).
-      * unfold thread_inv. unfold pending. simpl. rewrite Hs. rewrite upd_same.
+      * unfold thread_inv. unfold lp_pending, pending. simpl. rewrite lp_pend_nil, Hs. rewrite upd_same.
         exists g3, empty_env, l3. split; [reflexivity|]. split; [exact Henv0|exact E3].
       * apply Hothers. intros u Hne. apply upd_other. assumption.
       * intros u Hne. apply upd_other. assumption.
@@ -722,8 +901,8 @@ Lemma sim_end c σ pl t r :
   sim c σ pl -> c_thr c t = Some r -> r_todo r = [] ->
   pl t = Some (r_log r) /\ sim (set_thr c t None) σ (upd pl t None).
 Proof.
-  intros S Ht Htd. pose proof (sm_thr _ _ _ S t r Ht) as TI. unfold thread_inv, pending in TI.
-  rewrite Htd in TI. simpl in TI. destruct TI as (plog & lvA & lv' & Hpl & _ & E). inversion E; subst.
+  intros S Ht Htd. pose proof (sm_thr _ _ _ S t r Ht) as TI. unfold thread_inv, lp_pending, lp_pend, pending in TI.
+  rewrite Htd in TI. simpl in TI. rewrite andb_false_r in TI. destruct TI as (plog & lvA & lv' & Hpl & _ & E). inversion E; subst.
   split; [assumption|]. split; simpl.
   - apply (sm_pub _ _ _ S).
   - apply (sm_ro _ _ _ S).
@@ -758,7 +937,11 @@ Definition lp_of (c : cfg val arg) (l : label val arg) : option (tid * op arg) :
       end
   | LEv t e =>
       match c_thr c t with
-      | Some r => if is_lp_ev r (tl (r_todo r)) then Some (t, r_op r) else None
+      | Some r =>
+          match r_todo r with
+          | e' :: rest => if is_lp_ev r e' rest then Some (t, r_op r) else None
+          | [] => None
+          end
       | None => None
       end
   | LEnd _ _ _ => None
@@ -822,7 +1005,7 @@ Proof.
     destruct H as (plog & E & H). exists σ, plog. auto.
   - rewrite Ht, Htodo. simpl.
     pose proof (sim_ev c σ pl t r e rest c' LI OI OI' S Ht Htodo Hev) as H.
-    destruct (is_lp_ev r rest); exact H.
+    destruct (is_lp_ev r e rest); exact H.
   - apply (sim_end c σ pl t r S Ht Htodo).
 Qed.
 
@@ -929,12 +1112,12 @@ Proof.
       * intro u. unfold upd. simpl. destruct (Nat.eqb_spec u t) as [->|N].
         -- eexists. unfold upd. rewrite Nat.eqb_refl. repeat split.
         -- unfold upd. destruct (u =? t) eqn:X; [apply Nat.eqb_eq in X; contradiction|]. apply Hph.
-    + rewrite Ht, Htodo in Hlp. simpl in Hlp. destruct (is_lp_ev r rest) eqn:Elp; [|discriminate].
+    + rewrite Ht, Htodo in Hlp. simpl in Hlp. destruct (is_lp_ev r e rest) eqn:Elp; [|discriminate].
       inversion Hlp; subst t1 o.
       destruct (ev_step_thr val arg wfun wp c t r rest e c' Hev) as (r' & Ethr & _ & _ & Hop').
       assert (Hplt : pl t = None).
       { pose proof (sm_thr _ _ _ S t r Ht) as TI. unfold thread_inv in TI. unfold is_lp_ev in Elp.
-        apply andb_true_iff in Elp as [Ep _]. rewrite Ep in TI. tauto. }
+        apply andb_true_iff in Elp as [Ep _]. unfold lp_pending in TI. rewrite Htodo, Ep in TI. tauto. }
       assert (Hpht : ph t = PInv (r_op r)).
       { pose proof (Hph t) as X. destruct (ph t) as [|o2|o2 log2].
         - congruence.
